@@ -194,6 +194,13 @@ Theorem C14_wrong_unit_rejected : forall cfg st k t p tag h body st' rc,
 Proof. exact wrong_unit_rejected. Qed.
 Print Assumptions C14_wrong_unit_rejected.
 
+(* before setup(model) (case field c_setup = false): the run calls raise "simulator has not been setup" and leave the
+   simulator exactly as it was; scheduling / cancelling / peak_ahead behave as after setup *)
+Theorem C14_run_before_setup : forall cfg fuel st o st' ob l, is_run o = true ->
+  step_op_unset cfg fuel st o = (st', ob, l) -> st' = st /\ ob = [-1; E_NOSETUP] /\ l = [].
+Proof. exact run_before_setup. Qed.
+Print Assumptions C14_run_before_setup.
+
 (* C18 at the scheduling sites: a rejected call (past / wrong unit) leaves clock, event list, steps and dead set
    untouched (only the global id counter may have moved) ... *)
 Theorem C18_devs_atomic_schedule : forall cfg st k t p tag h body st' rc,
@@ -293,8 +300,7 @@ Print Assumptions C14_heap_refines_push.
    (heappush/heappop where Devs.v inserts in order / takes the head; this is the model the optional tie
    VERIF_HEAPQ_TIE=1 compares with the implementation INCLUDING the order of EventList._events).  On every history it
    produces exactly the observations of Model/Devs.v - so every theorem above also speaks about the heap-based model. *)
-Theorem C14_heap_simulator_refines : forall c,
-  map fst (h_run_ops (c_cfg c) (c_fuel c) (h_init (c_cfg c)) (c_ops c)) = run_case c.
+Theorem C14_heap_simulator_refines : forall c, map fst (h_run_case c) = run_case c.
 Proof. exact heap_simulator_refines_case. Qed.
 Print Assumptions C14_heap_simulator_refines.
 
